@@ -26,7 +26,10 @@ func newTreeStorage(t time.Duration) *treeStorage {
 // Register creates the key for tree so it is known
 func (ts *treeStorage) Register(id TreeID) {
 	ts.Lock()
-	ts.trees[id] = nil
+	if _, ok := ts.trees[id]; !ok {
+		// never drop a tree that has been set in the meantime
+		ts.trees[id] = nil
+	}
 	ts.Unlock()
 }
 
